@@ -135,7 +135,8 @@ theorem rneShift_mono (m m' s : Nat) (h : m ≤ m') : rneShift m s ≤ rneShift 
   by_cases hq : m / 2^s = m' / 2^s
   · rw [hq] at e1 ⊢
     have hr : m % 2^s ≤ m' % 2^s := by omega
-    split <;> split <;> simp_all <;> omega
+    split <;> split <;> simp_all
+    all_goals omega
   · split <;> split <;> omega
 
 theorem rneShift_le (m s : Nat) : rneShift m s ≤ m / 2^s + 1 := by
@@ -381,7 +382,7 @@ def Ok (T d : Nat) : Prop := 0 < d ∧ 0 < T ∧ (T % d = 0 ∨ 54 ≤ bitLen (T
 /-- representative at one more bit -/
 def rep (T d : Nat) : Nat := 2 * (T / d) + (if T % d = 0 then 0 else 1)
 
-theorem rep_pos (T d : Nat) (hd : 0 < d) (hT : 0 < T) : 0 < rep T d := by
+theorem rep_pos (T d : Nat) (_hd : 0 < d) (hT : 0 < T) : 0 < rep T d := by
   unfold rep
   have := Nat.div_add_mod T d
   split
@@ -407,7 +408,7 @@ theorem rmag_eq_rep (T d : Nat) (e : Int) (hd : 0 < d) (hT : 0 < T) :
     omega
   · rfl
 
-theorem rep_mono (T T' d : Nat) (hd : 0 < d) (h : T ≤ T') : rep T d ≤ rep T' d := by
+theorem rep_mono (T T' d : Nat) (_hd : 0 < d) (h : T ≤ T') : rep T d ≤ rep T' d := by
   unfold rep
   have hq : T / d ≤ T' / d := Nat.div_le_div_right h
   have e1 := Nat.div_add_mod T d
@@ -671,7 +672,7 @@ theorem roundPack_pos (f : Fmt) (neg : Bool) (m : Nat) (e : Int) (hm : m ≠ 0) 
   have : (m == 0) = false := by simp [hm]
   simp [roundPack, this]
 
-theorem roundPack_rmag (neg : Bool) (T d : Nat) (E : Int) (hd : 0 < d) (hT : 0 < T) :
+theorem roundPack_rmag (neg : Bool) (T d : Nat) (E : Int) (_hd : 0 < d) (hT : 0 < T) :
     roundPack .f64 neg (T / d) E (T % d != 0) = withSign .f64 neg (rmag T d E) := by
   have e1 := Nat.div_add_mod T d
   unfold roundPack rmag
@@ -748,7 +749,7 @@ theorem bitLen_53 (m : Nat) (h1 : 4503599627370496 ≤ m) (h2 : m < 900719925474
   bitLen_eq (k := 52) (by omega) (by omega)
 
 /-- a 53-bit (or subnormal) mantissa is packed without rounding -/
-theorem roundMag_exact (m : Nat) (e : Int) (h0 : 0 < m) (h2 : m < 9007199254740992) (he : -1074 ≤ e)
+theorem roundMag_exact (m : Nat) (e : Int) (_h0 : 0 < m) (h2 : m < 9007199254740992) (he : -1074 ≤ e)
     (hn : 4503599627370496 ≤ m ∨ e = -1074) : roundMag .f64 m e = pk e m := by
   have hL : bitLen m ≤ 53 := bitLen_le (k := 53) (by omega)
   have hfe : fe64 m e = e := by
